@@ -38,7 +38,7 @@ PRE_CERT = ("From Coq Require Import Reals ZArith List.\nImport ListNotations.\n
             "From EsVerif.C11 Require Import Gen Model Spec Proofs Cert Properties.\n")
 PRE_ACC = ("From Coq Require Import Reals ZArith List Lra.\nImport ListNotations.\n"
            "From Coquelicot Require Import Coquelicot.\nFrom Interval Require Import Tactic.\n"
-           "From EsVerif.C11 Require Import Gen Model Spec Proofs Cert.\nOpen Scope R_scope.\n")
+           "From EsVerif.C11 Require Import Gen Model Spec Proofs Cert Properties.\nOpen Scope R_scope.\n")
 
 CERT_PREC = 80
 ZMAX = 5.0
@@ -755,7 +755,16 @@ def run_certificates(ctx, results):
 INTEGRAL = "with (i_degree 10, i_fuel 200, i_relwidth 34)"
 
 ACC_TAC = r"""
-Ltac c11_unf := unfold within_rel, distmod_def, log10, dV_def, Dl_def, Da_def, Dm_def, V_closed, Vcum_closed,
+Ltac c11_E2pos := let z := fresh "z" in let Hz := fresh "Hz" in intros z Hz;
+  unfold E2, cosmoR_of, q2R; cbn [cDH cflat com col cok qDH qflat qom qol qok fst snd];
+  let A := fresh "A" in let B := fresh "B" in
+  assert (A : 0 < (1 + z) ^ 3) by (apply pow_lt; lra); assert (B : 0 <= (1 + z) ^ 2) by (apply pow2_ge_0);
+  generalize dependent ((1 + z) ^ 3); generalize dependent ((1 + z) ^ 2); intros; lra.
+(* the comoving volume is stated against its DEFINITION (RInt of 4 pi dV) and rewritten to Hogg's closed form by the
+   theorem C11_V_closed_form_derivative; its side conditions 0 <= z1 <= z2 and E^2 > 0 on [0,z2] are proved per case *)
+Ltac c11_V := repeat match goal with |- context [V_def ?c ?a ?b] =>
+  rewrite (C11_V_closed_form_derivative c a b) by (first [unfold q2R; cbn [fst snd]; lra | c11_E2pos]) end.
+Ltac c11_unf := c11_V; unfold within_rel, distmod_def, log10, dV_def, Dl_def, Da_def, Dm_def, V_closed, Vcum_closed,
   Dc_def in *; rewrite ?Dm_of_def_flat, ?Vcum_of_flat by (unfold cosmoR_of, q2R; cbn; lra);
   rewrite ?I_def_same; unfold I_def, Einv_def, E2, cosmoR_of, q2R, FOUR_PI_G_OVER_C2;
   cbn [cDH cflat com col cok qDH qflat qom qol qok fst snd].
@@ -785,7 +794,7 @@ def accuracy_lemma(case, res):
     add("QDl", "Dl_def %s %s %s" % (cq, Z1, Z2))
     add("QDistmod", "distmod_def %s %s" % (cq, Z2))
     add("QdV", "dV_def %s %s" % (cq, Z2))
-    add("QV", ("Vcum_closed %s %s" % (cq, Z2)) if z1 == 0 else ("V_closed %s %s %s" % (cq, Z1, Z2)))
+    add("QV", "V_def %s %s %s" % (cq, Z1, Z2))
     if z1 > 0:
         add("QScinv", "FOUR_PI_G_OVER_C2 * Da_def %s %s %s * Da_def %s 0 %s / Da_def %s 0 %s" % (cq, Z1, Z2, cq, Z1, cq, Z2))
     return conj
